@@ -21,7 +21,7 @@ func init() {
 		DesignRef: "DESIGN.md §3 C41",
 		Explanation: "Decides: (parity) the QoSControls fields whose non-zero value makes felix/rules emit per-packet rules are exactly the fields whose non-zero value makes workloadNeedsForwardHooks return true, DSCP (QosPolicies non-empty) makes it return true, and the workload/host stores into the exclusion maps are guarded by those predicates; each of those triggers makes the predicate true on every path from its entry whatever the other inputs are (only nil tests of the pointers the trigger itself is read through may return false first), i.e. no feature is consulted only under some value of another; " +
 			"(refresh) once an update is found to need exclusion, every path to the return rewrites (or deletes) the endpoint's entry in the exclusion map — the store never depends on the key being absent, so an excluded endpoint's changed/added address reaches the set; " +
-			"(dirty) every mutation of the exclusion maps is followed by dirty=true; (members) the members written to the IP set are built from every exclusion map of the manager, each holding the endpoint's addresses of the manager's IP version; " +
+			"(dirty) every mutation of the exclusion maps is followed by dirty=true; (members) the members written to the IP set are built from every exclusion map of the manager, each holding the endpoint's addresses of the manager's IP version (the stored value is a two-way choice on ipVersion between the v4/v6 twin fields of the same message — also when the choice is made by a helper that returns one of its parameters: each argument must be the field of the family the helper selects it for); " +
 			"(rule) FlowOffload() is the action of exactly one rule literal, whose match requires an established/related conntrack state only and excludes source and destination in the set named from IPSetIDNoFlowOffload, the SetID the exclusion manager writes.",
 		NotDecided: "The contents of the set after a history; a skip of the store on a branch computed from the message's own address fields (e.g. `unchanged` comparison) is accepted without checking the comparison; that a removed/changed address leaves the set (follows from replacing the whole set, not checked beyond `members`); the kernel's flowtable semantics; bandwidth QoS (deliberately not excluded); whether the manager is registered when offload is enabled.",
 		Assumptions: []string{
@@ -55,6 +55,11 @@ func init() {
 				Old: "\tfor _, ips := range m.hepIPs {\n\t\tmembers = append(members, ips...)\n\t}\n", New: "", Expect: "C41.members/hepIPs"},
 			{Name: "IPv6 manager collects IPv4 addresses", File: "felix/dataplane/linux/flowtable_mgr.go",
 				Old: "\t\tnets := msg.Endpoint.Ipv4Nets\n\t\tif m.ipVersion == 6 {\n\t\t\tnets = msg.Endpoint.Ipv6Nets\n\t\t}", New: "\t\tnets := msg.Endpoint.Ipv4Nets\n\t\tif m.ipVersion == 4 {\n\t\t\tnets = msg.Endpoint.Ipv6Nets\n\t\t}", Expect: "C41.members/addrs/wepIPs"},
+			{Name: "family selector helper handed the host endpoint's v4 list twice", File: "felix/dataplane/linux/flowtable_mgr.go",
+				Old: "\t\tips := msg.Endpoint.ExpectedIpv4Addrs\n\t\tif m.ipVersion == 6 {\n\t\t\tips = msg.Endpoint.ExpectedIpv6Addrs\n\t\t}\n",
+				New: "\t\tpick := func(v4, v6 []string) []string {\n\t\t\tif m.ipVersion == 6 {\n\t\t\t\treturn v6\n\t\t\t}\n\t\t\treturn v4\n\t\t}\n\t\tips := pick(msg.Endpoint.ExpectedIpv4Addrs, msg.Endpoint.ExpectedIpv4Addrs)\n", Expect: "C41.members/addrs/hepIPs"},
+			{Name: "workload v6 arm re-reads the v4 list", File: "felix/dataplane/linux/flowtable_mgr.go",
+				Old: "\t\t\tnets = msg.Endpoint.Ipv6Nets\n", New: "\t\t\tnets = msg.Endpoint.Ipv4Nets\n", Expect: "C41.members/addrs/wepIPs"},
 			{Name: "offload rule ignores destination exclusion", File: "felix/rules/static.go",
 				Old: "\t\t\t\t\tNotSourceIPSet(noOffloadSetName).\n\t\t\t\t\tNotDestIPSet(noOffloadSetName),", New: "\t\t\t\t\tNotSourceIPSet(noOffloadSetName),", Expect: "C41.rule/NotDestIPSet"},
 			{Name: "offload rule matches new connections", File: "felix/rules/static.go",
@@ -88,7 +93,7 @@ func runC41(c *Ctx) {
 	c.Rule("C41.parity", "E-FIELDS/E-GUARD", "QoSControls fields gating per-packet rules in felix/rules == fields making workloadNeedsForwardHooks true; QosPolicies non-empty ⇒ true; stores into the exclusion maps guarded by the predicates; each trigger makes the predicate true whatever the other inputs are (independent disjuncts)", 12)
 	c.Rule("C41.refresh", "E-PAIR", "from every branch edge that establishes `needs per-packet processing`, every path to a return overwrites (or deletes) the endpoint's entry in the exclusion map: the stored addresses never depend on the key's previous presence", 2)
 	c.Rule("C41.dirty", "E-PAIR", "every store into / delete from an exclusion map of flowtableExclusionManager is followed on every path by dirty=true", 4)
-	c.Rule("C41.members", "E-FLOW", "AddOrReplaceIPSet members are appended from every exclusion map; each map is filled from the endpoint's v4 address field, or the v6 field exactly under ipVersion==6", 4)
+	c.Rule("C41.members", "E-FLOW", "AddOrReplaceIPSet members are appended from every exclusion map; each map is filled from a two-way choice (inline, or through an in-package selector helper whose alternatives are mapped back to the call's arguments) between the IPv4/IPv6 twin address fields of one message, the v6 field selected exactly when ipVersion is 6", 4)
 	c.Rule("C41.rule", "E-OWN/E-CONST", "FlowOffload() is the action of one rule literal whose match is ConntrackState(⊆{RELATED,ESTABLISHED}∋ESTABLISHED).NotSourceIPSet(x).NotDestIPSet(x), x = NameForMainIPSet(IPSetIDNoFlowOffload); the exclusion manager's SetID is IPSetIDNoFlowOffload", 5)
 
 	x.parity()
@@ -884,44 +889,50 @@ func (x *c41) members() {
 				}
 				key := "C41.members/addrs/" + fld.Name()
 				site := p.Pos(mu.Pos())
-				// value = helper(phi[v4field, v6field]) ; follow one pass-through call
-				v := mu.Value
-				if call, ok := v.(*ssa.Call); ok && len(call.Call.Args) == 1 {
-					v = call.Call.Args[0]
-				}
-				phi, ok := v.(*ssa.Phi)
-				if !ok || len(phi.Edges) != 2 {
-					c.Undecided(key, site, "stored addresses %s are not a two-way choice between address fields", path(v))
+				// the stored value is a two-way choice between two address fields of the
+				// message, made on the manager's ipVersion — inline (phi) or through an
+				// in-package selector helper returning one of its parameters
+				choices, why := x.addrChoices(mu.Value, mu, func(a ssa.Value) bool { return fieldVar(a) == verF }, 0)
+				if why != "" || len(choices) != 2 {
+					if why == "" {
+						why = fmt.Sprintf("%d alternatives", len(choices))
+					}
+					c.Undecided(key, site, "stored addresses %s are not a two-way choice between address fields (%s)", path(mu.Value), why)
 					return
 				}
+				// an alternative not itself guarded by a version test is the complement of the other
+				for i := range choices {
+					if choices[i].ver == 0 && choices[1-i].ver != 0 {
+						choices[i].ver = 10 - choices[1-i].ver
+					}
+				}
 				bad := ""
-				n6 := 0
-				for i, e := range phi.Edges {
-					fv := fieldVar(e)
-					if fv == nil {
-						bad = "address source " + path(e) + " is not a field of the endpoint"
-						continue
+				var fvs [2]*types.Var
+				for i, ch := range choices {
+					fv := fieldVar(c41StripPass(ch.v))
+					if fv == nil || c41ProtoSliceFieldVar(fv) == nil {
+						c.Undecided(key, site, "address source %s is not an address-list field of the endpoint message", path(ch.v))
+						return
 					}
-					is6 := strings.Contains(fv.Name(), "v6")
-					pred := phi.Block().Preds[i]
-					// the edge pred->phi block is taken under ipVersion==6 ?
-					under6 := false
-					if len(pred.Instrs) > 0 {
-						under6 = guardedCut(pred.Instrs[len(pred.Instrs)-1], eqCond(true,
-							func(a ssa.Value) bool { return fieldVar(a) == verF },
-							func(a ssa.Value) bool { return c42IsConstInt(a, 6) })) && !pred.Dominates(phi.Block())
-					}
-					if is6 {
-						n6++
-					}
-					if is6 != under6 {
-						bad = fmt.Sprintf("address field %s is selected %s ipVersion == 6", fv.Name(), map[bool]string{true: "under", false: "without"}[under6])
+					fvs[i] = fv
+					fam := c41FieldFamily(fv)
+					switch {
+					case ch.ver == 0:
+						c.Undecided(key, site, "neither alternative of the stored addresses is selected by a test of ipVersion against 4 or 6")
+						return
+					case fam == 0:
+						bad = "address field " + fv.Name() + " names no IP family"
+					case fam != ch.ver:
+						bad = fmt.Sprintf("address field %s is selected when ipVersion is %d", fv.Name(), ch.ver)
 					}
 				}
-				if n6 != 1 && bad == "" {
-					bad = "no IPv6 address field among the choices"
+				if bad == "" && choices[0].ver == choices[1].ver {
+					bad = fmt.Sprintf("both alternatives are selected when ipVersion is %d", choices[0].ver)
 				}
-				c.Check(bad == "", key, site, "v6 address field selected exactly under ipVersion == 6, v4 field otherwise", bad+": the set would hold addresses of the wrong family and the endpoint's real addresses stay offloadable")
+				if bad == "" && !c41Twins(fvs[0], fvs[1]) {
+					bad = fmt.Sprintf("address fields %s and %s are not the IPv4/IPv6 twins of one message", fvs[0].Name(), fvs[1].Name())
+				}
+				c.Check(bad == "", key, site, "v6 address field selected exactly when ipVersion is 6, its v4 twin otherwise", bad+": the set would hold addresses of the wrong family and the endpoint's real addresses stay offloadable")
 			})
 		}
 	}
@@ -1116,4 +1127,230 @@ func (x *c41) namedFromSetID(info *types.Info, fd *ast.FuncDecl, e ast.Expr, set
 		return true
 	})
 	return defs >= 1 && defs == good
+}
+
+// ------------------------------------------------- members/addrs: selection --
+
+// c41Choice: one alternative of the stored address list and the ipVersion (4/6,
+// 0 = not fixed by a test) under which it is the one selected.
+type c41Choice struct {
+	v   ssa.Value
+	ver int
+}
+
+// c41VerOfEdge classifies the truth of `cond == pol` as a fact about the
+// manager's IP version: ==6 / !=4 → 6, ==4 / !=6 → 4 (Felix has two families).
+func c41VerOfEdge(cond ssa.Value, pol bool, isVer func(ssa.Value) bool) int {
+	is := func(n int64) func(ssa.Value) bool {
+		return func(a ssa.Value) bool { return c42IsConstInt(a, n) }
+	}
+	switch {
+	case eqCond(true, isVer, is(6))(cond, pol), eqCond(false, isVer, is(4))(cond, pol):
+		return 6
+	case eqCond(true, isVer, is(4))(cond, pol), eqCond(false, isVer, is(6))(cond, pol):
+		return 4
+	}
+	return 0
+}
+
+// c41VerAt: the IP version fixed on every path reaching instruction at.
+func c41VerAt(at ssa.Instruction, isVer func(ssa.Value) bool) int {
+	for _, ver := range []int{6, 4} {
+		ver := ver
+		if guardedCut(at, func(cond ssa.Value, pol bool) bool { return c41VerOfEdge(cond, pol, isVer) == ver }) {
+			return ver
+		}
+	}
+	return 0
+}
+
+// addrChoices resolves the value stored into an exclusion map to its
+// alternatives.  Shapes followed (all equivalent spellings of "pick the list of
+// my family"): a one-argument pass-through call (stripSubnetMasks), a two-way
+// phi whose edges are classified by the branch they come from, and a call of an
+// in-package helper with a body whose every return yields one of its
+// parameters (or a field read) — the helper's alternatives are mapped back to
+// the call's arguments; the version tested inside the helper may be the
+// manager's field or a parameter bound to it at the call.
+func (x *c41) addrChoices(v ssa.Value, at ssa.Instruction, isVer func(ssa.Value) bool, depth int) ([]c41Choice, string) {
+	if depth > 3 {
+		return nil, "selection nested too deeply"
+	}
+	switch y := v.(type) {
+	case *ssa.Call:
+		if _, isB := y.Call.Value.(*ssa.Builtin); !isB && !y.Call.IsInvoke() && len(y.Call.Args) == 1 {
+			return x.addrChoices(y.Call.Args[0], at, isVer, depth+1)
+		}
+		callee := y.Call.StaticCallee()
+		if callee == nil || callee.Blocks == nil {
+			return nil, "call of " + path(y) + " has no analysable body"
+		}
+		args := y.Call.Args
+		if len(callee.Params) != len(args) {
+			return nil, "call of " + callee.Name() + ": parameter/argument mismatch"
+		}
+		argOf := func(a ssa.Value) ssa.Value {
+			if pa, ok := a.(*ssa.Parameter); ok {
+				for i, q := range callee.Params {
+					if q == pa {
+						return args[i]
+					}
+				}
+			}
+			return nil
+		}
+		innerVer := func(a ssa.Value) bool {
+			if b := argOf(a); b != nil {
+				return isVer(b)
+			}
+			return isVer(a)
+		}
+		var out []c41Choice
+		for _, r := range returnsOf(callee) {
+			if len(r.Results) != 1 {
+				return nil, callee.Name() + " does not return a single value"
+			}
+			sub, why := x.addrChoices(r.Results[0], r, innerVer, depth+1)
+			if why != "" {
+				return nil, why
+			}
+			for _, ch := range sub {
+				if b := argOf(ch.v); b != nil {
+					ch.v = b
+				} else if _, isP := ch.v.(*ssa.Parameter); isP {
+					return nil, "unbound parameter in " + callee.Name()
+				}
+				if ch.ver == 0 {
+					ch.ver = c41VerAt(at, isVer)
+				}
+				out = append(out, ch)
+			}
+		}
+		// the same alternative returned from several places under the same version counts once
+		var uniq []c41Choice
+		for _, ch := range out {
+			dup := false
+			for _, u := range uniq {
+				if u.v == ch.v && u.ver == ch.ver {
+					dup = true
+				}
+			}
+			if !dup {
+				uniq = append(uniq, ch)
+			}
+		}
+		return uniq, ""
+	case *ssa.Phi:
+		if len(y.Edges) != 2 {
+			return nil, fmt.Sprintf("%d-way merge", len(y.Edges))
+		}
+		var out []c41Choice
+		for i, e := range y.Edges {
+			pred := y.Block().Preds[i]
+			ver := 0
+			if ifi, ok := pred.Instrs[len(pred.Instrs)-1].(*ssa.If); ok && len(pred.Succs) == 2 && pred.Succs[0] != pred.Succs[1] {
+				k := 0
+				if pred.Succs[1] == y.Block() {
+					k = 1
+				}
+				cnd, pol := stripNot(ifi.Cond, k == 0)
+				ver = c41VerOfEdge(cnd, pol, isVer)
+			}
+			if ver == 0 {
+				ver = c41VerAt(pred.Instrs[len(pred.Instrs)-1], isVer)
+			}
+			sub, why := x.addrChoices(e, pred.Instrs[len(pred.Instrs)-1], isVer, depth+1)
+			if why != "" {
+				return nil, why
+			}
+			if len(sub) != 1 {
+				return nil, "nested selection"
+			}
+			if sub[0].ver == 0 {
+				sub[0].ver = ver
+			}
+			out = append(out, sub[0])
+		}
+		return out, ""
+	}
+	return []c41Choice{{v: v, ver: c41VerAt(at, isVer)}}, ""
+}
+
+// c41ProtoSliceFieldVar: fv is a slice-typed field of a felix/proto message.
+func c41ProtoSliceFieldVar(fv *types.Var) *types.Var {
+	if fv == nil || fv.Pkg() == nil || !strings.HasSuffix(fv.Pkg().Path(), "felix/proto") {
+		return nil
+	}
+	if _, ok := fv.Type().Underlying().(*types.Slice); !ok {
+		return nil
+	}
+	return fv
+}
+
+// c41FieldFamily: the IP family a proto address field is named for (…v4…/…v6…), 0 if none.
+func c41FieldFamily(fv *types.Var) int {
+	n := strings.ToLower(fv.Name())
+	v4, v6 := strings.Contains(n, "v4"), strings.Contains(n, "v6")
+	switch {
+	case v4 && !v6:
+		return 4
+	case v6 && !v4:
+		return 6
+	}
+	return 0
+}
+
+// c41Twins: a and b are fields of the same message struct whose names differ
+// only in the family marker (Ipv4Nets/Ipv6Nets, ExpectedIpv4Addrs/ExpectedIpv6Addrs).
+func c41Twins(a, b *types.Var) bool {
+	if a == nil || b == nil || a == b || c41FieldFamily(a)+c41FieldFamily(b) != 10 {
+		return false
+	}
+	norm := func(s string) string {
+		s = strings.ToLower(s)
+		return strings.ReplaceAll(strings.ReplaceAll(s, "v4", "v?"), "v6", "v?")
+	}
+	if norm(a.Name()) != norm(b.Name()) {
+		return false
+	}
+	return c41OwnerStruct(a) != nil && c41OwnerStruct(a) == c41OwnerStruct(b)
+}
+
+// c41OwnerStruct: the named struct type of fv's package declaring field fv.
+func c41OwnerStruct(fv *types.Var) *types.TypeName {
+	if fv.Pkg() == nil {
+		return nil
+	}
+	sc := fv.Pkg().Scope()
+	for _, n := range sc.Names() {
+		tn, ok := sc.Lookup(n).(*types.TypeName)
+		if !ok {
+			continue
+		}
+		st, ok := tn.Type().Underlying().(*types.Struct)
+		if !ok {
+			continue
+		}
+		for i := 0; i < st.NumFields(); i++ {
+			if st.Field(i) == fv {
+				return tn
+			}
+		}
+	}
+	return nil
+}
+
+// c41StripPass strips one-argument pass-through calls (stripSubnetMasks and the like).
+func c41StripPass(v ssa.Value) ssa.Value {
+	for i := 0; i < 3; i++ {
+		y, ok := v.(*ssa.Call)
+		if !ok || y.Call.IsInvoke() || len(y.Call.Args) != 1 {
+			break
+		}
+		if _, isB := y.Call.Value.(*ssa.Builtin); isB {
+			break
+		}
+		v = y.Call.Args[0]
+	}
+	return v
 }
